@@ -4,6 +4,7 @@ import Mimium.Proofs.SchedMore
 import Mimium.Model.SchedMem
 import Mimium.Proofs.SchedMem
 import Mimium.Gen.Sched
+import Mimium.Proofs.HeapStdQueue
 /-!
 # C11 — scheduled tasks run exactly once at exactly their sample time
 
@@ -239,6 +240,97 @@ theorem C11_wasm_mem_slot_consistent_partial {σ H : Type} (ops : HeapOps H) (to
 /-- the abstract heap with any tie oracle is such an implementation -/
 theorem C11_oracle_heap_meets_spec (ch : Nat → Nat) : HeapSpec (oracleHeap ch) (fun h => h.1) :=
   oracleHeap_spec ch
+
+/-! ## The literal `BinaryHeap<Reverse<Task>>` port is a priority queue (theorems, no longer a trusted assumption)
+
+`stdPush` / `stdPop` (`Model/SchedMem.lean`) port `BinaryHeap::push` (`sift_up`) and `BinaryHeap::pop`
+(`sift_down_to_bottom` + `sift_up`) on an array. The key is `Reverse<Task>` with `Ord for Task` comparing `when` ONLY
+(`C11_source_shape`: `self.when.cmp(&other.when)`) — there is no sequence number, so the order is a total PREorder:
+`IsHeap d` = min-heap on `when`. The exact pop order of the port (ties included) is what the real `WasmSchedulerHandle`
+is compared with, history by history, in the correspondence stage. -/
+
+/-- `push` keeps the array a heap. -/
+theorem C11_heap_push_invariant (x : Task) (d : Array Task) (h : IsHeap d) : IsHeap (stdPush x d) :=
+  stdPush_isHeap x d h
+
+/-- `push` adds exactly one element (as a multiset; no invariant needed). -/
+theorem C11_heap_multiset (x : Task) (d : Array Task) :
+    (stdPush x d).toList.Perm (x :: d.toList) ∧ (stdPush x d).size = d.size + 1 :=
+  ⟨stdPush_perm x d, stdPush_size x d⟩
+
+/-- `pop` keeps the array a heap. -/
+theorem C11_heap_pop_invariant (d : Array Task) (h : IsHeap d) (x : Task) (r : Array Task)
+    (e : stdPop d = some (x, r)) : IsHeap r := by
+  have hs : d.size ≠ 0 := fun h0 => by rw [(stdPop_none d).2 h0] at e; cases e
+  obtain ⟨r', e', hr, _, _⟩ := stdPop_spec d h hs
+  rw [e'] at e
+  simp only [Option.some.injEq, Prod.mk.injEq] at e
+  rw [← e.2]
+  exact hr
+
+/-- `pop` returns `None` exactly on the empty heap; otherwise it returns a member with minimal `when` and removes
+exactly one occurrence of it: the old contents are a permutation of the popped element plus the new contents. -/
+theorem C11_heap_pop_min (d : Array Task) (h : IsHeap d) :
+    (stdPop d = none ↔ d.size = 0) ∧
+    ∀ (x : Task) (r : Array Task), stdPop d = some (x, r) →
+      x ∈ d.toList ∧ (∀ y ∈ d.toList, x.when ≤ y.when) ∧ d.toList.Perm (x :: r.toList) ∧ r.size + 1 = d.size := by
+  refine ⟨stdPop_none d, ?_⟩
+  intro x r e
+  have hs : d.size ≠ 0 := fun h0 => by rw [(stdPop_none d).2 h0] at e; cases e
+  obtain ⟨r', e', _, p, hsz⟩ := stdPop_spec d h hs
+  rw [e'] at e
+  simp only [Option.some.injEq, Prod.mk.injEq] at e
+  obtain ⟨rfl, rfl⟩ := e
+  exact ⟨p.mem_iff.2 (List.mem_cons_self ..), h.root_min, p, hsz⟩
+
+/-- **Refinement.** Any sequence of `push`/`pop` on the port, started from any heap, behaves pop by pop as a priority
+queue ordered by `when` over the multiset of its contents (`PQTrace`): `None` exactly when empty; otherwise a member
+of minimal `when`, exactly one occurrence of which is removed. WHICH of several members with the same `when` is
+returned is not determined by the specification (and, for the real heap, depends on the array layout: see
+`C11_heap_tie_order_witness`). -/
+theorem C11_heap_refines_priority_queue (ops : List QOp) (d : Array Task) (h : IsHeap d) :
+    PQTrace d.toList ops (runStd ops d) :=
+  runStd_trace ops d h
+
+/-- Up to the order among equal keys the port IS the sorted-list queue: from contents with the same multiset of keys,
+the two pop the same `when` at every pop (and `None` at the same pops). -/
+theorem C11_heap_pop_keys_eq_sorted_queue (ops : List QOp) (d : Array Task) (l : List Task) (h : IsHeap d)
+    (hl : SortedByWhen l) (hk : (d.toList.map (·.when)).Perm (l.map (·.when))) :
+    (runStd ops d).map (Option.map (·.when)) = (runSorted ops l).map (Option.map (·.when)) :=
+  PQTrace.keys_eq ops (runStd_trace ops d h) (runSorted_trace ops l hl) hk
+
+/-- When the order is total on the tasks involved (`when` injective on contents and pushed tasks — e.g. a key with a
+sequence number, or all scheduled times distinct) the port equals the sorted-list queue exactly. -/
+theorem C11_heap_eq_sorted_queue_of_total_order (ops : List QOp) (d : Array Task) (l : List Task) (h : IsHeap d)
+    (hl : SortedByWhen l) (hp : d.toList.Perm l) (inj : KeyInj (d.toList ++ pushed ops)) :
+    runStd ops d = runSorted ops l :=
+  PQTrace.unique ops (runStd_trace ops d h) (runSorted_trace ops l hl) hp inj
+
+/-- Among equal keys the port (like the real heap) is neither FIFO nor LIFO: four tasks with the same time pushed in
+the order 0,1,2,3 are popped 0,2,1,3 (FIFO sorted-list queue: 0,1,2,3; LIFO: 3,2,1,0). This order is what the real
+`BinaryHeap` produces (handle-level correspondence, exact pop order). -/
+theorem C11_heap_tie_order_witness :
+    (runStd [.push ⟨1, 0⟩, .push ⟨1, 1⟩, .push ⟨1, 2⟩, .push ⟨1, 3⟩, .pop, .pop, .pop, .pop] #[]).map (Option.map (·.id))
+      = [some 0, some 2, some 1, some 3] ∧
+    (runSorted [.push ⟨1, 0⟩, .push ⟨1, 1⟩, .push ⟨1, 2⟩, .push ⟨1, 3⟩, .pop, .pop, .pop, .pop] []).map (Option.map (·.id))
+      = [some 0, some 1, some 2, some 3] ∧
+    (runSortedLifo [.push ⟨1, 0⟩, .push ⟨1, 1⟩, .push ⟨1, 2⟩, .push ⟨1, 3⟩, .pop, .pop, .pop, .pop] []).map (Option.map (·.id))
+      = [some 3, some 2, some 1, some 0] := by
+  decide +kernel
+
+/-- non-vacuity: the empty array is a heap, so the refinement covers every history of a fresh queue; and the
+total-order premise is satisfiable with the outputs being non-trivial -/
+example (ops : List QOp) : PQTrace [] ops (runStd ops #[]) := C11_heap_refines_priority_queue ops #[] isHeap_empty
+example (ops : List QOp) : (runStd ops #[]).map (Option.map (·.when)) = (runSorted ops []).map (Option.map (·.when)) :=
+  C11_heap_pop_keys_eq_sorted_queue ops #[] [] isHeap_empty List.Pairwise.nil (List.Perm.refl _)
+example : KeyInj ((#[] : Array Task).toList ++ pushed [.push ⟨3, 0⟩, .push ⟨1, 1⟩, .pop, .push ⟨2, 2⟩, .pop, .pop, .pop]) := by
+  unfold KeyInj; decide
+example : runStd [.push ⟨3, 0⟩, .push ⟨1, 1⟩, .pop, .push ⟨2, 2⟩, .pop, .pop, .pop] #[]
+    = [some ⟨1, 1⟩, some ⟨2, 2⟩, some ⟨3, 0⟩, none] := by decide +kernel
+example : IsHeap (stdPush ⟨1, 7⟩ (stdPush ⟨2, 8⟩ #[])) :=
+  C11_heap_push_invariant _ _ (C11_heap_push_invariant _ _ isHeap_empty)
+example : stdPop (stdPush ⟨1, 7⟩ (stdPush ⟨2, 8⟩ #[])) = some (⟨1, 7⟩, #[⟨2, 8⟩]) := by decide +kernel
+
 
 /-! ## Non-vacuity -/
 
